@@ -231,6 +231,10 @@ def _run_segment(seg: Dict[str, Any], out: Dict[str, Any]) -> None:
             del ops[:]
             fun = getattr(mods[st["module"]], st["root"])
             kwargs = dict(st.get("kwargs") or {})
+            if "dds_stages" in kwargs:
+                # "@NAME" denotes the enum member dds.ProcessingStage.NAME
+                kwargs["dds_stages"] = [getattr(dds.ProcessingStage, x[1:]) if isinstance(x, str) and x.startswith("@") else x
+                                        for x in kwargs["dds_stages"]]
             args = list(st.get("args") or [])
             try:
                 if st["style"] == "direct":
